@@ -1155,6 +1155,15 @@ def run_case(ctx, model, real, fam, tree, params, forms=None, backends=None, qui
                                         val if status == "exc" else g0.tolist() if g0 is not None else repr(val)[:200],
                                         ".jacobian(f;p) differs from the exact Jacobian although p∂f returns it")
                         continue
+            if status == "exc" and backend == "torch" and unused and not numeric and fclass != "jacobian" \
+                    and ("not have been used in the graph" in str(val) or "AutogradChainBroken" in str(val)
+                         or not untracked_base_power(tree, form, env)):
+                # autograd: the output is not connected to (one of) the differentiated inputs
+                ctx.bump("raises:torch:autograd:parameter-not-used")
+                ctx.oracle_fail("torch:autograd:parameter-not-used", case, "zero gradient for the unused parameter",
+                                val, f"the function does not depend on {unused}: its derivative there is 0 "
+                                     "(numpy returns 0), torch autograd raises instead")
+                continue
             if backend == "torch" and not numeric and untracked_base_power(tree, form, env):
                 # Power looks only at the BASE for gradient: a plain-number base takes the numpy branch of
                 # torch power() (tracked exponent unwrapped / refused), and an untracked tensor base lets
@@ -1169,13 +1178,6 @@ def run_case(ctx, model, real, fam, tree, params, forms=None, backends=None, qui
                                     "c^e with c a plain number and e depending on the differentiated variable: "
                                     "torch autograd raises or drops the c^e*ln(c) term (numpy is right)")
                     continue
-            if status == "exc" and backend == "torch" and unused and not numeric and fclass != "jacobian":
-                # autograd: the output is not connected to (one of) the differentiated inputs
-                ctx.bump("raises:torch:autograd:parameter-not-used")
-                ctx.oracle_fail("torch:autograd:parameter-not-used", case, "zero gradient for the unused parameter",
-                                val, f"the function does not depend on {unused}: its derivative there is 0 "
-                                     "(numpy returns 0), torch autograd raises instead")
-                continue
             if status == "exc" and "Integers to negative integer powers" in val:
                 # `^` turns whole-valued results into integers; an integer ARRAY (the probes are 0-d /
                 # n-d arrays) to a negative power is refused by numpy.  Plain `([2.0 1.0]^2)^-1` fails alike.
